@@ -774,17 +774,28 @@ func (handler *Handler) QueryResponseHandler(ctx context.Context, packet *Packet
 		return ErrInvalidResponseLength
 	}
 
-	fieldCount := int(packetData[0])
+	// the first byte tells an OK packet (0x00), an ERR packet (0xff) and a LOCAL INFILE request (0xfb, answered by
+	// the client with the file's content) from a result set, which starts with the column count as
+	// a length-encoded integer (more than 250 columns take 3 bytes)
+	// https://dev.mysql.com/doc/dev/mysql-server/latest/page_protocol_com_query_response.html
+	var fieldCount, fieldCountSize int
+	if packetData[0] != OkPacket && packetData[0] != ErrPacket && packetData[0] != LocalInfilePacket {
+		count, _, n, err := base_mysql.LengthEncodedInt(packetData)
+		if err != nil {
+			return err
+		}
+		fieldCount, fieldCountSize = int(count), n
+	}
 
 	// MariaDB sends `send_metadata` qualifier that says send ColumnDef packets or not
 	// https://mariadb.com/kb/en/result-set-packets/#column-count-packet
 	var sendMetadata byte
-	if len(packetData) > 1 && handler.Capabilities.IsSetMariaDBCacheMetadata() {
-		sendMetadata = packetData[1]
+	if fieldCount > 0 && len(packetData) > fieldCountSize && handler.Capabilities.IsSetMariaDBCacheMetadata() {
+		sendMetadata = packetData[fieldCountSize]
 	}
 
 	output := []Dumper{packet}
-	if fieldCount != ErrPacket && fieldCount > 0 {
+	if fieldCount > 0 {
 		handler.logger.Debugln("Read column descriptions")
 
 		if handler.Capabilities.IsSetMariaDBCacheMetadata() && sendMetadata == 0 {
